@@ -1,9 +1,9 @@
 package eng
 
 import (
-	"strings"
 	"fmt"
 	"math/rand"
+	"strings"
 
 	"verif/mon"
 	"verif/ops"
